@@ -38,6 +38,13 @@ def harnesses(tier):
                         bounds='segments %s, %d variables, flags %d; <= 3 objectives' % (' '.join(seq), nv, fl), assumptions=A, flags=['--object-bits', '10'],
                         claims='exactly the selected objective(s) reach the builder (count, sense, nonlinear part, linear terms, order), out-of-range objno => InvalidOptionValue, no objective access beyond the allocated count, objno_used() = delivered objective')
             h.label = 'h_obj_select[v%d,%s,f%d]' % (nv, ''.join(seq), fl); hs.append(h)
+    # the same check with the option state arriving through the after-header callback (the real driver flow), on a few shapes
+    for (nv, seq) in [(1, ['b']), (1, ['b', 'O']), (2, ['O', 'b', 'G1']), (2, ['G2', 'O', 'b'])]:
+        types = [{'O': 0, 'G': 1, 'b': 2}[x[0]] for x in seq]; nts = [int(x[1:]) if x[0] == 'G' else 0 for x in seq]
+        D = ['VIA_CALLBACK', 'SEGS={%s}' % ','.join(map(str, types)), 'NTS={%s}' % ','.join(map(str, nts)), 'NSEG=%d' % len(seq), 'NUMVARS=%d' % nv, 'FLAGS=0']
+        h = Harness('h_obj_select', 'objsel', unwind=8, timeout=300 if tier == 'quick' else 1200, mem_gb=16, defines=D, tv_cases=0, bounds='segments %s, %d variables; options set inside the after-header callback' % (' '.join(seq), nv), assumptions=A, flags=['--object-bits', '10'],
+                    claims='as h_obj_select, with objno/multiobj parsed in the after-header callback: the range check and the objective selection use the parsed values')
+        h.label = 'h_obj_select[cb,v%d,%s]' % (nv, ''.join(seq)); hs.append(h)
     h2 = Harness('h_set_objno', 'objsel', unwind=4, timeout=300, tv_cases=0, bounds='option value: any 32-bit int', assumptions=A[1:2], claims='SetObjNo accepts exactly the non-negative values')
     h2.replay_on = 'gen'; hs.append(h2)
     return hs
